@@ -58,7 +58,11 @@ DistTerm(g) == IF g.dist # <<>> /\ g.thr = 1 THEN <<g.dist[1]>> ELSE g.dist
 GroupHash(g) == <<Range(g.nodes), g.thr, g.genesis, g.transition, DistTerm(g), IdOrDefault(g.id)>>
 
 \* Group.GetGenesisSeed
-SeedOf(g) == IF g.seed = "none" THEN <<"H", GroupHash(g)>> ELSE SeedTerm(g.seed)
+\* (sequence families: once GetGenesisSeed has run on a seedless group the hash of THAT moment
+\* is cached in g.GenesisSeed - seed = "frozen", frozen = the hashed fields of that moment)
+SeedOf(g) == IF g.seed = "none" THEN <<"H", GroupHash(g)>>
+             ELSE IF g.seed = "frozen" THEN <<"H", GroupHash(g.frozen)>>
+             ELSE SeedTerm(g.seed)
 
 \* chain.NewChainInfo(group); defined once a distributed key exists
 HasChain(g) == g.dist # <<>>
@@ -86,6 +90,9 @@ Mon_DiffParamsDiffHash(t1, d1, t2, d2) == t1 # t2 => d1 # d2      \* commits to 
 Mon_TamperRejected(orig, tampered, accepted) ==
   accepted => ChainHash(ChainOfInfo(tampered)) = ChainHash(ChainOfInfo(orig))
 
+\* a decode that succeeds yields a value whose Hash() is the hash the document declared
+Mon_DecodedHashIsDeclared(accepted, declared, live) == accepted => live = declared
+
 -----------------------------------------------------------------------------
 (* Values                                                                    *)
 
@@ -102,7 +109,8 @@ GroupInit == [nodes |-> <<<<CHOOSE x \in NodeIdx : TRUE, CHOOSE x \in NodeKeys :
               genesis |-> CHOOSE x \in Geneses : TRUE, transition |-> 0, dist |-> <<>>, id |-> "",
               period |-> CHOOSE x \in Periods : TRUE, seed |-> "none"]
 
-Hash(v) == IF Family = "chain" THEN ChainHash(ChainOfInfo(v)) ELSE GroupHash(v)
+IsChainFam == Family \in {"chain", "chainseq"}
+Hash(v) == IF IsChainFam THEN ChainHash(ChainOfInfo(v)) ELSE GroupHash(v)
 
 -----------------------------------------------------------------------------
 (* Actions                                                                   *)
@@ -173,10 +181,88 @@ G_Via == \E path \in {"toml", "proto", "file"} :
 GroupNext == G_Permute \/ G_SetNodeKey \/ G_SetNodeIndex \/ G_SetThr \/ G_SetGenesis \/ G_SetTransition
              \/ G_SetDist \/ G_SetId \/ G_SetPeriod \/ G_SetSeed \/ G_Reshare \/ G_Via
 
-Init == /\ val = (IF Family = "chain" THEN InfoInit ELSE GroupInit)
+-----------------------------------------------------------------------------
+(* Sequence families: ONE Go value lives through the whole behaviour.  Its     *)
+(* fields are assigned in place, documents are decoded INTO it, it is copied   *)
+(* and the copy changed - and after every step its hash is taken again.  The   *)
+(* hash returned at any moment is the hash of the CURRENT fields.  Whatever    *)
+(* the code caches is modelled as coded: Group.GetGenesisSeed (called by       *)
+(* NewChainInfo, TOML, ToProto) stores the group hash of that moment as the    *)
+(* genesis seed of a seedless group; Group.Hash sorts the node listing.        *)
+
+\* chainseq: the harness calls Hash() on the live Info after every step
+Q_Hash == val' = val /\ prev' = val /\ act' = [name |-> "hash"]
+\* c := *info; c.field = x; continue with c
+Q_CopySet == \E f \in {"period", "genesis", "pk", "seed", "id"} :
+               \E x \in (CASE f = "period" -> Periods [] f = "genesis" -> Geneses [] f = "pk" -> Firsts
+                           [] f = "seed" -> Seeds [] OTHER -> Ids) :
+                 /\ x # val[f]
+                 /\ val' = [val EXCEPT ![f] = x] /\ prev' = val
+                 /\ act' = [name |-> "copyset", field |-> f]
+\* info.ToProto(): the packet declares a hash
+Q_ToProto == val' = val /\ prev' = val /\ act' = [name |-> "toproto"]
+\* decode a document INTO the live value: the document carries the fields fv and declares the
+\* hash of dv (decl: none = no hash, own = of its fields, cur = of the live value, other = of a
+\* third value).  json.Unmarshal(doc, info) assigns the fields before it compares the hash (so
+\* they stay assigned when it rejects); info = InfoFromProto(packet) replaces the value only
+\* when the packet is accepted.
+DocFields == {val} \cup UNION {{[val EXCEPT ![f] = x] :
+                  x \in (CASE f = "period" -> Periods [] f = "genesis" -> Geneses [] f = "pk" -> Firsts
+                           [] f = "seed" -> Seeds [] OTHER -> Ids)} : f \in {"period", "genesis", "pk", "seed", "id"}}
+Q_Decode == \E path \in {"json", "proto"}, fv \in DocFields, decl \in {"none", "own", "cur", "other"} :
+              LET dv == CASE decl = "own" -> fv [] decl = "cur" -> val [] OTHER -> InfoInit
+                  accept == decl = "none" \/ ChainHash(ChainOfInfo(fv)) = ChainHash(ChainOfInfo(dv))
+              IN /\ val' = (IF path = "json" \/ accept THEN fv ELSE val) /\ prev' = val
+                 /\ act' = [name |-> "decode", path |-> path, fv |-> fv, decl |-> decl, dv |-> dv, accept |-> accept]
+
+ChainSeqSets == C_SetPeriod \/ C_SetGenesis \/ C_SetPk \/ C_SetSeed \/ C_SetId
+ChainSeqNext == ChainSeqSets \/ Q_Hash \/ Q_CopySet \/ Q_ToProto \/ Q_Decode
+
+\* groupseq: after every step the harness calls Hash() on the live group and, when it has a
+\* key, NewChainInfo(group).Hash() - which runs GetGenesisSeed
+Snap(g) == [nodes |-> g.nodes, thr |-> g.thr, genesis |-> g.genesis, transition |-> g.transition,
+            dist |-> g.dist, id |-> g.id]
+Observe(g) == IF HasChain(g) /\ g.seed = "none" THEN [g EXCEPT !.seed = "frozen", !.frozen = Snap(g)] ELSE g
+SeqSet(field, v2) == /\ v2 # val
+                     /\ val' = Observe(v2) /\ prev' = val
+                     /\ act' = [name |-> "set", field |-> field]
+R_Sets ==
+  \/ \E k \in DOMAIN val.nodes, x \in NodeKeys :
+        LET ns == [val.nodes EXCEPT ![k] = <<val.nodes[k][1], x>>] IN
+        WellFormedNodes(ns) /\ SeqSet("nodekey", [val EXCEPT !.nodes = ns])
+  \/ \E k \in DOMAIN val.nodes, x \in NodeIdx :
+        LET ns == [val.nodes EXCEPT ![k] = <<x, val.nodes[k][2]>>] IN
+        WellFormedNodes(ns) /\ SeqSet("nodeindex", [val EXCEPT !.nodes = ns])
+  \/ \E x \in 1..MaxNodes : LET v2 == [val EXCEPT !.thr = x] IN ThrOK(v2) /\ SeqSet("threshold", v2)
+  \/ \E x \in Geneses : SeqSet("genesis", [val EXCEPT !.genesis = x])
+  \/ \E x \in Transitions : SeqSet("transition", [val EXCEPT !.transition = x])
+  \/ \E x \in {<<>>} \cup {<<a, b>> : a \in Firsts, b \in Rests} :
+        LET v2 == [val EXCEPT !.dist = x] IN DistTerm(v2) # DistTerm(val) /\ SeqSet("dist", v2)
+  \/ \E x \in Ids : SeqSet("id", [val EXCEPT !.id = x])
+  \/ \E x \in Periods : SeqSet("period", [val EXCEPT !.period = x])
+  \/ \E x \in Seeds \cup {"none"} : SeqSet("seed", [val EXCEPT !.seed = x, !.frozen = <<>>])
+R_Permute == \E f \in Perms(Len(val.nodes)) :
+               LET ns == [k \in 1..Len(val.nodes) |-> val.nodes[f[k]]] IN
+               /\ ns # val.nodes
+               /\ val' = Observe([val EXCEPT !.nodes = ns]) /\ prev' = val
+               /\ act' = [name |-> "permute"]
+R_Hash == val' = Observe(val) /\ prev' = val /\ act' = [name |-> "hash"]
+\* c := *group (the copy shares nothing the hash depends on but the node slice); c.field = x
+CopySet(f, v2) == /\ v2 # val
+                  /\ val' = Observe(v2) /\ prev' = val
+                  /\ act' = [name |-> "copyset", field |-> f]
+R_CopySet == \/ \E x \in Geneses : CopySet("genesis", [val EXCEPT !.genesis = x])
+             \/ \E x \in 1..MaxNodes : LET v2 == [val EXCEPT !.thr = x] IN ThrOK(v2) /\ CopySet("threshold", v2)
+             \/ \E x \in Ids : CopySet("id", [val EXCEPT !.id = x])
+GroupSeqNext == R_Sets \/ R_Permute \/ R_Hash \/ R_CopySet
+
+Init == /\ val = (IF IsChainFam THEN InfoInit
+                  ELSE IF Family = "groupseq" THEN Observe(GroupInit @@ [frozen |-> <<>>])
+                  ELSE GroupInit)
         /\ act = [name |-> "init"] /\ prev = val
 
-Next == IF Family = "chain" THEN ChainNext ELSE GroupNext
+Next == CASE Family = "chain" -> ChainNext [] Family = "chainseq" -> ChainSeqNext
+          [] Family = "groupseq" -> GroupSeqNext [] OTHER -> GroupNext
 
 Spec == Init /\ [][Next]_vars
 View == val
@@ -185,16 +271,16 @@ View == val
 (* Design-level properties: the statement's claims hold for the modelled      *)
 (* preimages (history variables relate every value to its predecessor)        *)
 
-TypeOK == IF Family = "chain" THEN TRUE ELSE WellFormedNodes(val.nodes) /\ ThrOK(val)
+TypeOK == IF IsChainFam THEN TRUE ELSE WellFormedNodes(val.nodes) /\ ThrOK(val)
 
 \* changing any one listed parameter changes the hash ("" and "default" are one id)
 ChainListed == {"period", "genesis", "pk", "seed", "id"}
 GroupListed == {"nodekey", "nodeindex", "threshold", "genesis", "transition", "dist", "id"}
 SameMeaning(f) == f = "id" /\ IdOrDefault(prev.id) = IdOrDefault(val.id)
 Inv_PerturbChanges ==
-  (act.name = "set" /\ act.field \in (IF Family = "chain" THEN ChainListed ELSE GroupListed) /\ ~SameMeaning(act.field))
+  (act.name \in {"set", "copyset"} /\ act.field \in (IF IsChainFam THEN ChainListed ELSE GroupListed) /\ ~SameMeaning(act.field))
      => Hash(val) # Hash(prev)
-Inv_DefaultIdEquivalent == (act.name = "set" /\ SameMeaning(act.field)) => Hash(val) = Hash(prev)
+Inv_DefaultIdEquivalent == (act.name \in {"set", "copyset"} /\ SameMeaning(act.field)) => Hash(val) = Hash(prev)
 \* the group's chain hash follows the chain parameters of the group
 Inv_GroupChain ==
   (Family = "group" /\ act.name = "set" /\ HasChain(val) /\ HasChain(prev)) =>
@@ -220,4 +306,16 @@ Inv_TamperDetectable ==
      LET t == [val EXCEPT ![act.field] = act.nv] IN
      (ChainHash(ChainOfInfo(t)) = ChainHash(ChainOfInfo(val))) <=>
         (act.field = "id" /\ IdOrDefault(act.nv) = IdOrDefault(val.id))
+\* sequence families: taking the hash, or emitting a packet, does not change the parameters; a
+\* decoded document is accepted exactly when it declares no hash or the hash of its fields; once
+\* the genesis seed of a group is cached, changing the membership no longer moves the chain hash
+Inv_SeqObserveOnly == (act.name \in {"hash", "toproto"} /\ IsChainFam) => val = prev
+Inv_SeqDecode == act.name = "decode" =>
+                   /\ act.accept <=> (act.decl = "none" \/ ChainHash(ChainOfInfo(act.fv)) = ChainHash(ChainOfInfo(act.dv)))
+                   /\ (act.accept => val = act.fv)
+Inv_SeqFrozen == (Family = "groupseq" /\ HasChain(val)) => val.seed # "none"
+Inv_SeqFrozenChain ==
+  (Family = "groupseq" /\ act.name = "set" /\ act.field \in {"nodekey", "nodeindex", "threshold", "transition"}
+     /\ HasChain(val) /\ HasChain(prev))
+    => ChainHash(ChainOfGroup(val)) = ChainHash(ChainOfGroup(prev))
 =============================================================================
